@@ -855,7 +855,8 @@ def run_meta_group(g):
         alg = e["alg"]
         evs.append({"var": e["var"], "f": e.get("f", 1), "alg": alg, "cls": "exact" if alg in EXACT else ("sort" if alg in SORTING else "online"),
                     "cfg": e.get("swc", "") + ":" + str(e.get("it", "")) + ":" + str(e.get("d", "")), "o": e.get("o", "diff") if e["kind"] == "part" else "maxsum",
-                    "kp": e.get("kp", 0), "out": r["out"], "sums": r.get("sums", []), "exact": r.get("exact", True), "n": len(e["vals"])})
+                    "kp": e.get("kp", 0), "out": r["out"], "sums": r.get("sums", []), "exact": r.get("exact", True), "n": len(e["vals"]),
+                    "k": e.get("k", 0) if e["kind"] == "part" else 0})
     return {"base": g["base"], "events": evs}
 
 
@@ -1028,3 +1029,16 @@ def replay_cbldm(rec):
         _cbldm_mod.time = saved
     return [{"label": "cbldm.partition_differs_from_model", "m": rec["best"], "c": got, "key": key},
             {"label": "cbldm.number_of_recursive_calls_differs_from_model", "m": rec["calls"], "c": clock.n, "key": key}]
+
+
+def replay_simple(rec):
+    """rec: {alg: kk|dp..., vals, k, best}: item-for-item comparison with the real algorithm called on ids"""
+    vals, k, alg = rec["vals"], rec["k"], rec["alg"]
+    ids = list(range(1, len(vals) + 1))
+    try:
+        B = prtpy.BinnerKeepingContents(lambda i: vals[i - 1])
+        ret = PART_ALGS[alg]()(B, k, ids, **rec.get("kw", {}))
+        got = [[int(i) for i in b] for b in ret[1]]
+    except Exception as e:
+        got = ["EXC " + type(e).__name__]
+    return [{"label": alg + ".partition_differs_from_model", "m": rec["best"], "c": got, "key": {"vals": vals, "k": k}}]
